@@ -18,7 +18,7 @@ func init() {
 	register(&Property{
 		ID:      "C08",
 		NeedGen: true,
-		Runtime: RuntimeCore,
+		Runtime: append(append([]string{}, RuntimeCore...), "./codegen/config"),
 		Run:     runC08,
 		Explanation: "Only the structural guards of serialisation (the byte-level correctness of the escaper and round trips are value-level and NOT decided): (punctuation) FieldSet.MarshalGQL and Array.MarshalGQL write the " +
 			"matching open/close token exactly once (open first, close last on every path), the comma only on the index != 0 edge before the element, and FieldSet writes key (through the quoting sink), colon, value in " +
@@ -293,6 +293,8 @@ func runC08(c *Ctx) {
 	layoutAgreement(c)
 	genRound2(c)
 	encodeErrorsKept(c)
+	floatBuiltinReportsNonFinite(c)
+	omittableValueOnlyWhenSet(c)
 
 	// ---------------------------------------------------------------------------------------------
 	c.R.Rule("utf8", "the quoting sink (writeQuotedString) reaches a UTF-8 validity operation (utf8.RuneError comparison, utf8.Valid*, strings.ToValidUTF8), and its replacement branch depends on the decoded width so that an encoded U+FFFD is preserved", 2)
